@@ -135,6 +135,28 @@ def run(ctx, config='rel-all'):
                 ctx.ok('R5', '%s: release only on the callback\'s Err edge' % fn, 'must-fact is(callback result, Err)')
             else:
                 ctx.violation('R5', fn, 'release-unguarded', 'the reservation is released on a path that is not the callback\'s Err edge', rel[0].span)
+            # the release gives back the WHOLE reservation: the finger it stores is at least ptr + size(layout)
+            # (std's contract here is "reusable": a release that rounds the wrong way leaves MIN_ALIGN bytes of residue)
+            rs = [e for e in res.events if e.kind == 'store' and arena.footer_field(e) and arena.footer_field(e)[1] == 'ptr' and len(e.stack) > 1 and e.stack[:1] == rel[0].stack and e.stack[1][1] == rel[0].block]
+            okw = False
+            for e in rs:
+                if arena.classify_finger_store(I, res, e) != 'RECLAIM':
+                    continue
+                bp = arena.unsafe_block_params(I, e)
+                gate = arena.reclaim_precondition(I, e, arena.footer_field(e)[0])
+                if bp and gate:
+                    P2 = arena.mk_prover(I, e, res, set(c01.ENTRY_AXIOMS.get('alloc_slice_try_fill_with', ())) | gate)
+                    okw = P2.le(app('add', bp[0], app('size', bp[1])), e.val)
+                    if not okw:
+                        # the gate is finger == ptr: state the obligation on the finger term the store is written in
+                        for f in e.state.facts:
+                            if f[0] == 'eq' and len(f) == 3 and bp[0] in f[1:]:
+                                other = f[2] if f[1] == bp[0] else f[1]
+                                okw = okw or P2.le(app('add', other, app('size', bp[1])), e.val)
+            if okw:
+                ctx.ok('R5', '%s: the release raises the finger to at least ptr + size(layout): the whole reservation is reusable' % fn, 'lemma library')
+            else:
+                ctx.violation('R5', fn, 'release-partial', 'cannot establish ptr + size(layout) <= new finger for the release of the failed reservation: part of it would stay unusable', rel[0].span)
         else:
             ctx.violation('R5', fn, 'shape', 'expected one reservation and one release in alloc_slice_try_fill_with, found %d / %d' % (len(resv), len(rel)), body.get('span'))
     else:
